@@ -17,13 +17,21 @@ pub struct TypeEntry {
     pub identity_gen: Vec<u64>,
     pub leaf_kinds: Vec<Kind>,
     pub faithful: bool,
-    pub run: fn(&Plan, RunOpts) -> Outcome,
-    pub run_json: fn(&crate::bytes::JPlan, RunOpts) -> Outcome,
+    pub ops: Box<dyn Ops>,
     /// byte lane: write() calls and text length of a fault-free compact write of 1,2,3,...
     pub json_wcalls: u32,
     pub json_len: u32,
     /// fault-free step counts and record layout, per (framing, newtype mode)
     pub probes: Vec<Probe>,
+}
+
+impl TypeEntry {
+    pub fn run(&self, plan: &Plan, opts: RunOpts) -> Outcome {
+        run_plan(&*self.ops, plan, opts)
+    }
+    pub fn run_json(&self, plan: &crate::bytes::JPlan, opts: RunOpts) -> Outcome {
+        crate::bytes::run_json(&*self.ops, plan, opts)
+    }
 }
 
 #[derive(Clone, Debug, Default)]
@@ -54,8 +62,7 @@ fn entry<T: Subject>(family: &'static str) -> TypeEntry {
         gen_kinds,
         leaf_kinds,
         faithful: T::faithful(),
-        run: run_plan::<T>,
-        run_json: crate::bytes::run_json::<T>,
+        ops: Box::new(OpsOf::<T>(std::marker::PhantomData)),
         json_wcalls: 0,
         json_len: 0,
         probes: Vec::new(),
@@ -146,7 +153,7 @@ pub fn registry() -> Vec<TypeEntry> {
                     retry: false,
                     in_place: false,
                 };
-                let o = (e.run)(&plan, RunOpts { trace: true });
+                let o = e.run(&plan, RunOpts { trace: true });
                 let mut p = Probe { wsteps: o.wsteps, rsteps: o.rsteps, records: vec![] };
                 if let Some(d) = &o.detail {
                     p.records = d.records.clone();
@@ -156,7 +163,7 @@ pub fn registry() -> Vec<TypeEntry> {
         }
         e.probes = probes;
         let jp = crate::bytes::JPlan::base(&e.name, simple_gen(&e.gen_kinds));
-        let o = (e.run_json)(&jp, RunOpts { trace: true });
+        let o = e.run_json(&jp, RunOpts { trace: true });
         e.json_wcalls = o.wsteps;
         e.json_len = o.detail.as_ref().map(|d| d.json_len).unwrap_or(0);
     }
